@@ -20,11 +20,33 @@ func thawAll() {
 	anyFrozen = false
 }
 
-func freeze(root value) {
+// freeze marks everything reachable from root read-only, not descending into
+// the cells listed in except (objects that are legitimately shared and
+// mutable, e.g. an internally locked token.FileSet).
+func freeze(root value, except ...value) {
 	seenSlices := map[unsafe.Pointer]bool{}
+	skip := map[*value]bool{}
+	var unwrap func(v value)
+	unwrap = func(v value) {
+		switch v := v.(type) {
+		case *value:
+			if v != nil {
+				skip[v] = true
+			}
+		case iface:
+			unwrap(v.v)
+		case []value:
+			for _, x := range v {
+				unwrap(x)
+			}
+		}
+	}
+	for _, e := range except {
+		unwrap(e)
+	}
 	var walk func(v value)
 	cell := func(p *value) {
-		if p == nil || frozenCells[p] {
+		if p == nil || frozenCells[p] || skip[p] {
 			return
 		}
 		frozenCells[p] = true
